@@ -211,7 +211,17 @@ struct Log
 	void Add(const std::string& item) { if (!ev.empty()) ev += ','; ev += item; }
 };
 
-struct ScriptObj { const JVal* ops; Log* log; template <class TArchive> void Serialize(TArchive& archive); };
+// Scripted base classes: an op {"op":"base","ops":[...]} serializes BitSerializer::BaseObject<ScriptBase1>(*this), whose own
+// script may contain one more {"op":"base"} level (ScriptBase2).  Members of bases land in the same object scope.
+struct ScriptBase2 { const JVal* base2Ops = nullptr; Log* base2Log = nullptr; template <class TArchive> void Serialize(TArchive& archive); };
+struct ScriptBase1 : ScriptBase2 { const JVal* base1Ops = nullptr; Log* base1Log = nullptr; template <class TArchive> void Serialize(TArchive& archive); };
+struct ScriptObj : ScriptBase1
+{
+	ScriptObj(const JVal* o, Log* l) : ops(o), log(l) {}
+	const JVal* ops; Log* log;
+	template <class TArchive> void Serialize(TArchive& archive);
+};
+template <class TArchive, class TSelf> void RunObjectOps(TArchive& archive, const JVal& ops, Log* log, TSelf* self, int level);
 struct ScriptArr { const JVal* ops; Log* log; size_t declared = 0; size_t size() const { return declared; } };
 
 template <class TArchive> void SerializeArray(TArchive& archive, ScriptArr& arr);
@@ -226,13 +236,29 @@ void WithKey(const JVal& op, F&& f)
 	else { fprintf(stderr, "op without key\n"); exit(3); }
 }
 
-template <class TArchive>
-void ScriptObj::Serialize(TArchive& archive)
+template <class TArchive> void ScriptObj::Serialize(TArchive& archive) { RunObjectOps(archive, *ops, log, this, 0); }
+template <class TArchive> void ScriptBase1::Serialize(TArchive& archive) { RunObjectOps(archive, *base1Ops, base1Log, this, 1); }
+template <class TArchive> void ScriptBase2::Serialize(TArchive& archive) { RunObjectOps(archive, *base2Ops, base2Log, this, 2); }
+
+template <class TArchive, class TSelf>
+void RunObjectOps(TArchive& archive, const JVal& opsArr, Log* log, TSelf* self, int level)
 {
-	for (const auto& op : ops->GetArray())
+	for (const auto& op : opsArr.GetArray())
 	{
 		const std::string kind = op["op"].GetString();
-		if (kind == "req")
+		if (kind == "base")
+		{
+			if constexpr (std::is_same_v<TSelf, ScriptObj>) {
+				self->base1Ops = &op["ops"]; self->base1Log = log;
+				archive << BitSerializer::BaseObject<ScriptBase1>(*self);
+			}
+			else if constexpr (std::is_same_v<TSelf, ScriptBase1>) {
+				self->base2Ops = &op["ops"]; self->base2Log = log;
+				archive << BitSerializer::BaseObject<ScriptBase2>(*self);
+			}
+			else { fprintf(stderr, "base nesting too deep\n"); exit(3); }
+		}
+		else if (kind == "req")
 		{
 			WithType(op["t"].GetString(), [&](auto* tag) {
 				using T = std::remove_pointer_t<decltype(tag)>;
@@ -247,7 +273,7 @@ void ScriptObj::Serialize(TArchive& archive)
 		}
 		else if (kind == "obj")
 		{
-			ScriptObj child{ &op["ops"], log };
+			ScriptObj child(&op["ops"], log);
 			bool loaded = false;
 			if constexpr (TArchive::IsLoading()) log->Add("[\"open\"]");
 			WithKey(op, [&](auto key) {
@@ -274,6 +300,7 @@ void ScriptObj::Serialize(TArchive& archive)
 					using K = std::decay_t<decltype(key)>;
 					if (!keys.empty()) keys += ',';
 					if constexpr (std::is_same_v<K, std::string_view> || std::is_same_v<K, std::string>) keys += Canon(std::string(key));
+					else if constexpr (std::is_same_v<K, const char*> || std::is_same_v<K, char*>) keys += Canon(std::string(key));
 					else if constexpr (std::is_arithmetic_v<K>) keys += Canon(key);
 					else keys += "[\"other\"]";
 				});
@@ -302,7 +329,7 @@ void SerializeArray(TArchive& archive, ScriptArr& arr)
 		}
 		else if (kind == "obj")
 		{
-			ScriptObj child{ &op["ops"], arr.log };
+			ScriptObj child(&op["ops"], arr.log);
 			if constexpr (TArchive::IsLoading()) arr.log->Add("[\"open\"]");
 			const bool loaded = BitSerializer::Serialize(archive, child);
 			if constexpr (TArchive::IsLoading()) arr.log->Add(std::string("[\"close\",") + (loaded ? "true" : "false") + "]");
@@ -339,6 +366,22 @@ inline BitSerializer::SerializationOptions OptionsFrom(const JVal& scn)
 		if (p.HasMember("ov") && std::string(p["ov"].GetString()) == "skip") o.overflowNumberPolicy = BitSerializer::OverflowNumberPolicy::Skip;
 		if (p.HasMember("utf") && std::string(p["utf"].GetString()) == "skip") o.utfEncodingErrorPolicy = BitSerializer::Convert::Utf::UtfEncodingErrorPolicy::Skip;
 		if (p.HasMember("maxerr")) o.maxValidationErrors = p["maxerr"].GetUint();
+	}
+	if (scn.HasMember("opt"))
+	{
+		// output configuration: {"fmt":bool,"padChar":n,"padNum":n,"enc":"utf8|utf16le|utf16be|utf32le|utf32be","bom":bool,"sep":n}
+		const auto& p = scn["opt"];
+		if (p.HasMember("fmt")) o.formatOptions.enableFormat = p["fmt"].GetBool();
+		if (p.HasMember("padChar")) o.formatOptions.paddingChar = static_cast<char>(p["padChar"].GetInt());
+		if (p.HasMember("padNum")) o.formatOptions.paddingCharNum = static_cast<uint16_t>(p["padNum"].GetUint());
+		if (p.HasMember("bom")) o.streamOptions.writeBom = p["bom"].GetBool();
+		if (p.HasMember("sep")) o.valuesSeparator = static_cast<char>(p["sep"].GetInt());
+		if (p.HasMember("enc"))
+		{
+			using BitSerializer::Convert::Utf::UtfType;
+			const std::string e = p["enc"].GetString();
+			o.streamOptions.encoding = e == "utf16le" ? UtfType::Utf16le : e == "utf16be" ? UtfType::Utf16be : e == "utf32le" ? UtfType::Utf32le : e == "utf32be" ? UtfType::Utf32be : UtfType::Utf8;
+		}
 	}
 	return o;
 }
@@ -391,7 +434,7 @@ std::string RunLoad(const JVal& scn, const std::string& doc, const std::string& 
 				if (holder.scripted) refused = holder.scripted->seekRefused;
 			}
 		};
-		if (rk == "obj") { ScriptObj o{ &root["ops"], &log }; loadWith(o); }
+		if (rk == "obj") { ScriptObj o(&root["ops"], &log); loadWith(o); }
 		else if (rk == "arr") { ScriptArr a{ &root["ops"], &log }; loadWith(a); }
 		else {
 			WithType(root["t"].GetString(), [&](auto* tag) {
@@ -426,7 +469,7 @@ std::string RunSave(const JVal& scn)
 				if (medium == 0) BitSerializer::SaveObject<TArchive>(value, out[0], options);
 				else { BitSerializer::SaveObject<TArchive>(value, stream, options); out[1] = stream.str(); }
 			};
-			if (rk == "obj") { ScriptObj o{ &root["ops"], &log }; saveWith(o); }
+			if (rk == "obj") { ScriptObj o(&root["ops"], &log); saveWith(o); }
 			else if (rk == "arr") { ScriptArr a{ &root["ops"], &log, static_cast<size_t>(root["ops"].Size()) }; saveWith(a); }
 			else {
 				WithType(root["t"].GetString(), [&](auto* tag) {
@@ -486,7 +529,7 @@ std::string RunFault(const JVal& scn, const std::string& doc, const std::string&
 				if (isSave) { if (streamOut) BitSerializer::SaveObject<TArchive>(value, *ostr, options); else BitSerializer::SaveObject<TArchive>(value, outMem, options); }
 				else { if (streamIn) BitSerializer::LoadObject<TArchive>(value, holder.get(), options); else BitSerializer::LoadObject<TArchive>(value, doc, options); }
 			};
-			if (rk == "obj") { ScriptObj o{ &root["ops"], &log }; call(o); }
+			if (rk == "obj") { ScriptObj o(&root["ops"], &log); call(o); }
 			else if (rk == "arr") { ScriptArr a{ &root["ops"], &log, static_cast<size_t>(root["ops"].Size()) }; call(a); }
 			else {
 				WithType(root["t"].GetString(), [&](auto* tag) {
